@@ -1,6 +1,8 @@
 (** C16 – Tabs are always expanded before reaching the terminal.
-    Only statements; every proof is [exact <lemma from IndProofs.TabsProofs>].  All the
-    vocabulary of the statements is defined in IndModel.Tabs (model/Tabs.v).
+    Only statements; every proof is [exact <term built from lemmas of IndProofs.TabsProofs /
+    IndProofs.TabsEnvProofs>] (a conjunction or an existential witness where the statement is
+    one).  The vocabulary of the statements is defined in IndModel.Tabs (model/Tabs.v) and
+    IndModel.TabsEnv (model/TabsEnv.v).
 
     [run E bar_init ops] is the model of a ProgressBar (OnceLock caches explicit) executing the
     public calls [ops] in the environment [E]; its second component lists, per call, the text
@@ -11,14 +13,23 @@
     a string, terminal width, text of the numeric / time keys, geometry of a bar); it is
     universally quantified everywhere.  [ref_run] is the cache-free reference: texts are kept as
     given and expanded from the ORIGINAL with the CURRENT tab width whenever they are looked at. *)
-From IndModel Require Import Base Tabs.
+From IndModel Require Import Base Tabs TabsEnv.
+From IndModel Require Keys.
 From IndModel Require Padded.
 From IndGen Require Import Constants.
-From IndProofs Require Import TabsProofs.
+From IndProofs Require Import TabsProofs TabsEnvProofs.
+From Coq Require SpecFloat.
 From Coq Require Import NArith List.
 From Coq Require String.
 Import ListNotations.
 Open Scope N_scope.
+
+(* an environment without numeric texts (40 columns) and the facts the witness below needs *)
+Definition exE0 : env := chk_env 40 [] [] [] [].
+Example C16_ex_env0_ok : env_ok exE0.
+Proof. intros d id w H. exact H. Qed.
+Example C16_ex_pre_6ff82af_ops_ok : Forall op_ok pre_6ff82af_ops.
+Proof. repeat constructor. Qed.
 
 (** Cache invariant, for every history (any order, any length, any widths and texts): every
     TabExpandedString reachable from the bar (message, prefix, template literals) carries the
@@ -53,16 +64,43 @@ Theorem C16_no_tab : forall (E : env) (ops : list op),
 Proof. exact no_tab. Qed.
 Print Assumptions C16_no_tab.
 
-(** Regression statement about the rendering BEFORE commit 6ff82af: the {spinner} arm pushed the
-    tick string as stored ([tick_text]) into the line, and that can hold a TAB (witness
-    tick_strings(["\t","x"]), the former C16_no_tab_refuted / finding D29); the arm as it is now
-    writes a TAB-free text for every style, tick count and tab width.  The former witness is in
-    the harness corpus and must draw spaces. *)
-Theorem C16_no_tab_refuted_pre_6ff82af :
-  (exists (g : glyphs) (tick : N) (fin : bool), ~ notab (tick_text g tick fin))
-  /\ (forall (c : rctx) (h : ph), p_key h = KSpinner -> notab (static_buf c h)).
-Proof. exact (conj tick_text_can_have_tab spinner_buf_notab). Qed.
-Print Assumptions C16_no_tab_refuted_pre_6ff82af.
+(** [env_ok] discharged: the texts of ALL 22 numeric / time keys are TAB-free when they are what
+    the key dispatch of format_state (C11's model, Keys.builtin_value) produces with the crate's
+    formatters (C15's model, Fmt.v: HumanCount, Human/Decimal/BinaryBytes, FormattedDuration,
+    HumanDuration, HumanFloatCount, `{:.p}`) from ANY snapshot per rendering - any position,
+    length, fraction, elapsed / eta / duration, per_sec bit pattern (NaN, infinities included). *)
+Theorem C16_env_ok_formatters :
+  forall (cols : text -> N) (termw : N -> N) (geom : N -> N -> N * option N * N)
+         (dec32 : N -> SpecFloat.spec_float) (snap : N -> Keys.snapshot),
+  env_ok (keys_env cols termw geom dec32 snap).
+Proof. exact keys_env_ok. Qed.
+Print Assumptions C16_env_ok_formatters.
+
+(** ... hence C16_no_tab without the hypothesis about the numeric keys, for those environments. *)
+Theorem C16_no_tab_formatters :
+  forall (cols : text -> N) (termw : N -> N) (geom : N -> N -> N * option N * N)
+         (dec32 : N -> SpecFloat.spec_float) (snap : N -> Keys.snapshot) (ops : list op),
+  Forall op_ok ops ->
+  Forall out_notab (snd (run (keys_env cols termw geom dec32 snap) bar_init ops)).
+Proof. exact no_tab_keys. Qed.
+Print Assumptions C16_no_tab_formatters.
+
+(** Regression statement (finding D29, fixed by /repo 6ff82af): with the {spinner} arm as it was
+    BEFORE that commit ([ref_lines_gen true]: the tick string pushed into the line as stored)
+    the frame of a reachable state contains a TAB - style tick_strings(["\t","x"]), template
+    "{spinner}" - although every hypothesis of C16_no_tab holds; with the arm as it is now the
+    same frame is TAB-free.  [ref_lines_gen false] is the rendering the theorems above are
+    about; [ref_lines_gen true] is used by no other statement. *)
+Theorem C16_no_tab_pre_6ff82af_refuted :
+  exists (E : env) (ops : list op),
+    env_ok E /\ Forall op_ok ops /\
+    let r := fst (ref_run E rbar_init ops) in
+    ~ Forall notab (ref_lines_gen true E r) /\ Forall notab (ref_lines_gen false E r).
+Proof.
+  exact (ex_intro _ exE0 (ex_intro _ pre_6ff82af_ops
+           (conj C16_ex_env0_ok (conj C16_ex_pre_6ff82af_ops_ok (pre_6ff82af_frame exE0))))).
+Qed.
+Print Assumptions C16_no_tab_pre_6ff82af_refuted.
 
 (** What format_state does to a placeholder's text keeps it TAB-free, whatever the column
     widths are: padding / truncation of a sized field (PaddedStringDisplay), trimming, and the
@@ -125,7 +163,7 @@ Proof. repeat split; reflexivity. Qed.
 End KeyNames.
 
 (* the environment of the examples: 40 columns, every character one column wide, pos = len = "0" *)
-Definition exE : env := chk_env 40 [] [(KEY_POS, [48]); (KEY_LEN, [48])] [].
+Definition exE : env := chk_env 40 [] [(KEY_POS, [48]); (KEY_LEN, [48])] [] [].
 Example C16_ex_env_ok : env_ok exE.
 Proof.
   intros d id w. apply has_tab_in. unfold exE, chk_env, e_num, KEY_POS, KEY_LEN. cbn [lookup_draw lookup_or].
